@@ -37,16 +37,16 @@ func init() { Scenarios["records"] = recordsScenario }
 // request or reports it (always on), here the decoded records are compared
 // with what was submitted.
 type heldRec struct {
-	rec  kafka.Record // a copy: ReadRecord reuses the struct it returns, the Bytes values stay valid
-	want rc.Record
+	rec   kafka.Record // a copy: ReadRecord reuses the struct it returns, the Bytes values stay valid
+	want  rc.Record
 	magic int8
-	ctx  string
+	ctx   string
 }
 
 type fetchCapture struct {
-	recs   []byte // records field of the response as the broker built it
-	ver    int16
-	corrupt int   // index of the top-level entry that was corrupted (-1 none)
+	recs    []byte // records field of the response as the broker built it
+	ver     int16
+	corrupt int // index of the top-level entry that was corrupted (-1 none)
 	errCode int16
 }
 
